@@ -786,3 +786,41 @@ def rule_meshindex(ctx) -> RuleResult:
         res.notes.append("no subscript of a dask _key_array in the package: rule not applicable")
         res.min_instances = 0
     return res
+
+
+# ---------------------------------------------------------------------------------------------
+# R-SLICEEXACT (C09, C03): a set of block numbers is replaced by a slice only after an element-wise comparison with that slice's enumeration.
+# _normalize_indexes turns the blocks of a cohort into slices where it can (fewer tasks).  A slice stands for ALL the integers it enumerates:
+# "first, last and count fit an arithmetic progression" does not make a sorted set one ({0, 2, 3, 6} has the span and length of 0:7:2, which is
+# {0, 2, 4, 6}: block 3 leaves the cohort's dependency closure, block 4 enters it).  Every `append(slice(...))` of a computed slice sits under a
+# test that compares the index set with np.arange(...) element by element (np.array_equal / (a == b).all()).
+def rule_sliceexact(ctx) -> RuleResult:
+    res = RuleResult("R-SLICEEXACT", "block sets are turned into slices only under an element-wise comparison with the slice's enumeration", min_instances=2)
+    from ..astutil import guard_facts
+    f = ctx.prog.func("core._normalize_indexes")
+    pm = parents_map(f.node)
+    n = 0
+    for c in calls_in(f.node):
+        if not (isinstance(c.func, ast.Attribute) and c.func.attr == "append" and c.args and isinstance(c.args[0], ast.Call) and norm(c.args[0].func) == "slice"):
+            continue
+        n += 1
+        # all enclosing tests (this arm's own test is what matters; earlier arms of the elif chain are negated context)
+        leaves = []
+        cur = c
+        for a in ancestors(c, pm):
+            if isinstance(a, ast.If) and any(cur is b or any(cur is y for y in ast.walk(b)) for b in a.body):
+                leaves.append(a.test)
+            if a is f.node:
+                break
+        exact = any(isinstance(x, ast.Call) and norm(x.func) in ("np.array_equal", "numpy.array_equal") and any("arange" in norm(y) for y in x.args)
+                    for t in leaves for x in ast.walk(t))
+        res.inst(f"_normalize_indexes: '{norm(c)[:50]}' under an element-wise comparison with np.arange(…): {exact}", f"slice|{c.lineno}")
+        if not exact:
+            res.report(f"core._normalize_indexes|slice-without-elementwise-check|{norm(c.args[0])[:30]}", f.where(c), f.qualname,
+                       f"'{norm(c)[:60]}' replaces a set of block numbers by a slice without comparing the set with the slice's enumeration (np.array_equal(i, np.arange(…))): "
+                       "end-point / length arithmetic also holds for unevenly spaced sets ({0, 2, 3, 6} vs 0:7:2), so a block holding members of the cohort drops out of "
+                       "its dependency closure and another one is read instead")
+    if n == 0:
+        res.notes.append("_normalize_indexes no longer builds slices: rule not applicable")
+        res.min_instances = 0
+    return res
